@@ -1162,9 +1162,135 @@ func c20Enum(thorough bool, yield func(c20Case)) {
 	}
 }
 
+// ---------------------------------------------------------------------------
+// Large file (fault-free): "if it succeeds, every record of every file is
+// queryable and each file is stored once" must not depend on the size of a file.
+
+type c20LargeCase struct {
+	ID      uint64
+	Store   string // "mem" | "local"
+	Lines   int    // benchmark lines of the large file
+	LineLen int    // bytes per benchmark line (below the 64 KiB line limit of the readers)
+	Block   int    // a label block (two label lines) precedes every Block-th line
+}
+
+// c20LargeUpload builds the upload: one file of Lines benchmark lines of
+// LineLen bytes each - every line has its own name, so no two results form one
+// record - plus a small second file. The length is in the rest of the line
+// (value/unit pairs), not in labels.
+func c20LargeUpload(c c20LargeCase) c19Upload {
+	f := c19File{Name: "large.txt"}
+	f.Lines = append(f.Lines, c19SetL("attempt", "large"))
+	for i := 0; i < c.Lines; i++ {
+		if i%c.Block == 0 {
+			f.Lines = append(f.Lines, c19SetL("block", strconv.Itoa(i/c.Block)), c19SetL("first", strconv.Itoa(i)))
+		}
+		l := c19BenchL("Large", "", c19Sub{Key: "i", Val: kit.B(strconv.Itoa(i))})
+		rest := fmt.Sprintf(" 1 %d ns/op", i)
+		pad := c.LineLen - len(l.text()) - len(rest)
+		unit := " 1 pad/op"
+		rest += strings.Repeat(unit, pad/len(unit))
+		l.Rest = kit.B(rest)
+		f.Lines = append(f.Lines, l)
+	}
+	tail := c19File{Name: "tail.txt", Lines: []c19Line{c19SetL("attempt", "large"), c19SetL("k", "t"), c19BenchL("Tail", " 1 1 ns/op")}}
+	return c19Upload{User: "user", Files: []c19File{f, tail}}
+}
+
+var c20LargeOK sync.Map // case ID -> bool
+
+// c20LargeCheck shortens messages: they quote lines of about 60 KB.
+func c20LargeCheck(c c20LargeCase) *kit.Fail {
+	f := c20LargeRun(c)
+	if f != nil && len(f.Msg) > 1500 {
+		f.Msg = f.Msg[:1500] + "…"
+	}
+	return f
+}
+
+func c20LargeRun(c c20LargeCase) *kit.Fail {
+	s, err := c20NewSys(c.Store)
+	if err != nil {
+		panic("c20 monitor: cannot set up: " + err.Error())
+	}
+	defer s.close()
+	r := &c20Run{c: c20Case{Token: "large"}, s: s, m: &c19Model{}, nar: &c19Narrow{}, names: map[string]bool{}}
+	small := func(tok string) c19Upload {
+		return c19Upload{Files: []c19File{{Name: "s.txt", Lines: []c19Line{c19SetL("attempt", tok), c19SetL("k", "s"), c19BenchL("Small", " 1 1 ns/op"), c19BenchL("Small", " 1 2 ns/op")}}}}
+	}
+	if f := r.good("history upload", small("h")); f != nil {
+		return f
+	}
+	u := c20LargeUpload(c)
+	kit.NoteMax("c20_large_file_bytes", float64(len(u.Files[0].text())))
+	// good() requires HTTP 200 and compares every stored file with header + the
+	// bytes uploaded; the probes compare the full dump, the attempt's records and
+	// the listing (db and HTTP) with the model of all uploaded lines.
+	if f := r.good("upload with a large file", u); f != nil {
+		return f
+	}
+	if f := r.probes("after the upload with a large file"); f != nil {
+		return f
+	}
+	// the records at the very end of the large file, and the file after it
+	last := strconv.Itoa(c.Lines - 1)
+	bound := 4*r.m.totalLines() + 100
+	for _, ts := range [][]c19ResolvedTerm{
+		{{"i", ":", last}},
+		{{"block", ":", strconv.Itoa((c.Lines - 1) / c.Block)}, {"upload-file", ":", "large.txt"}},
+		{{"k", ":", "t"}, {"attempt", ":", "large"}},
+	} {
+		var words []string
+		for _, t := range ts {
+			words = append(words, t.Key+t.Op+t.Val)
+		}
+		text := strings.Join(words, " ")
+		o, complete := s.queryDB(text, bound)
+		if f := r.m.judgeResults("large db", text, ts, o, complete, len(r.m.ups), r.nar); f != nil {
+			return f
+		}
+		if len(o.res) == 0 {
+			return kit.Failf("query-result-mismatch", "large db Query(%q) returns nothing", text)
+		}
+		o, complete = s.queryHTTP(text, bound)
+		if f := r.m.judgeResults("large http", text, ts, o, complete, len(r.m.ups), r.nar); f != nil {
+			return f
+		}
+		if f := r.m.judgeListing("large http", text, ts, 0, s.listHTTP(text, nil, 0), len(r.m.ups), r.nar); f != nil {
+			return f
+		}
+	}
+	if f := r.good("upload after the large one", small("after")); f != nil {
+		return f
+	}
+	if f := r.probes("after one more good upload"); f != nil {
+		return f
+	}
+	c20LargeOK.Store(c.ID, true)
+	return r.nar.f
+}
+
+func c20LargeEnum(thorough bool, yield func(c20LargeCase)) {
+	r := kit.NewRand(kit.Seed(), "c20-large", 0)
+	stores := []string{[]string{"mem", "local"}[r.Intn(2)]}
+	if thorough {
+		stores = []string{"mem", "local"}
+	}
+	for i, st := range stores {
+		// 17-19 MiB in 280-330 lines of 56-62 KB
+		ll := r.Range(56000, 62000)
+		total := r.Range(17<<20, 19<<20)
+		yield(c20LargeCase{ID: uint64(i + 1), Store: st, Lines: total/ll + 1, LineLen: ll, Block: r.Range(20, 60)})
+	}
+}
+
 func TestVerifC20Faults(t *testing.T) {
 	defer c20Closers.Wait()
-	kit.Run(t, "C20", kit.Class[c20Case]{
+	kit.Run(t, "C20", kit.Class[c20LargeCase]{
+		Name: "c20-large-file", Enum: c20LargeEnum, Check: c20LargeCheck, MinNonTrivial: 1, Serial: true,
+		NonTrivial: func(c c20LargeCase) bool { v, ok := c20LargeOK.Load(c.ID); return ok && v.(bool) },
+		Rule:       "fault-free: one upload whose first file holds 17-19 MiB in about 300 benchmark lines of 56-62 KB (below the readers' 64 KiB line limit; every line its own name and label blocks every 20-60 lines, so about 300 records) and a small second file, between two small uploads, on fs.MemFS or fs/local (thorough: both). The upload must be accepted; each stored file must be header + exactly the uploaded bytes; full dump, the upload's records, the records of the last line / last label block / second file and the listings (db.DB and storage.Client) must equal the model of all uploaded lines.",
+	}, kit.Class[c20Case]{
 		Name: "c20-fault-enumeration", Enum: c20Enum, Check: c20Check, MinNonTrivial: 600,
 		NonTrivial: func(c c20Case) bool {
 			v, ok := c20Outcomes.Load(c.ID)
